@@ -463,6 +463,76 @@ def run_fixed_point_cases(res):
         res["judged"][sig_key(sig)] = 1
 
 
+def run_container_output_cases(res):
+    """User primitives whose OUTPUT is a tuple / list / dict, registered through def_linear, defjvp (callables and
+    "same") and defvjp, with one and with several arguments differentiated in the same trace, both modes."""
+    import autograd.builtins as ab
+    import autograd.numpy as anp
+    from autograd.core import make_jvp, make_vjp
+    from autograd.extend import def_linear, defjvp, defvjp, primitive
+
+    x0, y0 = onp.array([0.7, -1.3, 2.1]), onp.array([0.4, 0.9, -0.6])
+    w = (onp.array([1.0, -2.0, 0.5]), onp.array([0.3, 0.8, -1.1]))
+    vx, vy = onp.array([0.2, 0.5, -0.4]), onp.array([-0.7, 0.1, 0.3])
+    # bilinear tuple-valued map and its composition of built-ins
+    raw_t = lambda x, y: (x * y, 2.0 * x * y[::-1])
+    ref_t = lambda x, y: ab.tuple((x * y, 2.0 * x * y[::-1]))
+    raw_l = lambda x, y: [x * y, 2.0 * x * y[::-1]]
+    raw_d = lambda x, y: {"p": x * y, "q": 2.0 * x * y[::-1]}
+    score = lambda out: anp.sum(out[0] * w[0]) + anp.sum(out[1] * w[1])
+    score_d = lambda out: anp.sum(out["p"] * w[0]) + anp.sum(out["q"] * w[1])
+
+    def mk(api, raw):
+        P = primitive(raw)
+        if api == "def_linear":
+            def_linear(P)
+        elif api == "defjvp_same":
+            defjvp(P, "same", "same")
+        else:
+            tup = (lambda a, b: type(raw(x0, y0))((a, b))) if not isinstance(raw(x0, y0), dict) else (lambda a, b: {"p": a, "q": b})
+            defjvp(P, lambda g, ans, x, y: tup(g * y, 2.0 * g * y[::-1]), lambda g, ans, x, y: tup(x * g, 2.0 * x * g[::-1]))
+        get = (lambda g, k: g[k]) if not isinstance(raw(x0, y0), dict) else (lambda g, k: g["pq"[k]])
+        defvjp(P, lambda ans, x, y: lambda g: get(g, 0) * y + 2.0 * get(g, 1) * y[::-1], lambda ans, x, y: lambda g: get(g, 0) * x + (2.0 * get(g, 1) * x)[::-1])
+        return P
+
+    ref_fwd = {}
+    ref_fwd["x"] = make_jvp(lambda x: score(ref_t(x, y0)), x0)(vx)[1]
+    ref_fwd["y"] = make_jvp(lambda y: score(ref_t(x0, y)), y0)(vy)[1]
+    ref_fwd["xy"] = make_jvp(lambda t: score(ref_t(t[0], t[1])), (x0, y0))((vx, vy))[1]
+    ref_fwd["same"] = make_jvp(lambda x: score(ref_t(x, x)), x0)(vx)[1]
+    ref_rev = make_vjp(lambda t: score(ref_t(t[0], t[1])), (x0, y0))[0](1.0)
+    for kind, raw, sc in (("tuple", raw_t, score), ("list", raw_l, score), ("dict", raw_d, score_d)):
+        for api in ("def_linear", "defjvp_same", "defjvp"):
+            res["evaluations"] += 1
+            sig = {"engine": "ext", "family": "container_output", "out": kind, "api": api}
+            case = {"kind": "container_output", "out": kind, "api": api}
+            try:
+                with warnings.catch_warnings():
+                    warnings.simplefilter("ignore")
+                    P = mk(api, raw)
+                    got = {
+                        "x": make_jvp(lambda x: sc(P(x, y0)), x0)(vx)[1],
+                        "y": make_jvp(lambda y: sc(P(x0, y)), y0)(vy)[1],
+                        "xy": make_jvp(lambda t: sc(P(t[0], t[1])), (x0, y0))((vx, vy))[1],
+                        "same": make_jvp(lambda x: sc(P(x, x)), x0)(vx)[1],
+                    }
+                    rev = make_vjp(lambda t: sc(P(t[0], t[1])), (x0, y0))[0](1.0)
+            except NotImplementedError:
+                res["judged"][sig_key(dict(sig, outcome="raised"))] = 1
+                continue
+            except Exception as e:
+                res["violations"].append({"sig": dict(sig, symptom="exception:" + type(e).__name__), "case": case, "detail": traceback.format_exc()[-400:]})
+                continue
+            bad = [k for k in got if abs(float(got[k]) - float(ref_fwd[k])) > 1e-12 * (1 + abs(float(ref_fwd[k])))]
+            if bad:
+                res["violations"].append({"sig": dict(sig, symptom="wrong_value", mode="fwd"), "case": case, "detail": "tangent for differentiated set %s: %r, built-in composition %r" % (bad[0], got[bad[0]], ref_fwd[bad[0]])})
+                continue
+            if not all(onp.allclose(a, b, rtol=1e-12, atol=1e-12) for a, b in zip(rev, ref_rev)):
+                res["violations"].append({"sig": dict(sig, symptom="wrong_value", mode="rev"), "case": case, "detail": "%r vs %r" % (rev, ref_rev)})
+                continue
+            res["judged"][sig_key(sig)] = 1
+
+
 def run_none_shape_cases(res):
     """None-registered arguments whose shape differs from the output's: the zero must live in the
     argument's space (reverse) / the output's space (forward)."""
@@ -629,6 +699,7 @@ def run_shard(pid, tier, seed, idx, n):
         run_none_shape_cases(res)
         run_deprecated_api_cases(res)
         run_fixed_point_cases(res)
+        run_container_output_cases(res)
     ncp = 400 if tier == "quick" else 6000
     for i in range(idx, ncp, n):
         rng = onp.random.Generator(onp.random.PCG64([seed, i, 37]))
@@ -652,6 +723,9 @@ def replay(pid, case):
         res["violations"] = [v for v in res["violations"] if v["case"] == case]
     elif k == "none_shape":
         run_none_shape_cases(res)
+        res["violations"] = [v for v in res["violations"] if v["case"] == case]
+    elif k == "container_output":
+        run_container_output_cases(res)
         res["violations"] = [v for v in res["violations"] if v["case"] == case]
     elif k == "fixed_point":
         run_fixed_point_cases(res)
